@@ -103,6 +103,7 @@ def run (st : St) (args : List String) : St × String :=
   | ["sd.events"] => (st, eventsStr st)
   | "sd.history" :: _ => (st, "recorded")
   | "sd.stress" :: _ => (st, "ok")      -- atomic steps: no interleaving breaks the registry
+  | "sd.evrace" :: _ => (st, "ok")      -- a step and its event are one action: events follow the transitions (events_once_per_transition)
   | "sd.lin" :: h =>
     let rec parse : List String → Nat → St → List HOp → St × List HOp
       | inv :: resp :: kind :: name :: id :: res :: rest, tag, s, acc =>
